@@ -119,6 +119,72 @@ def _chunk(args):
     return n, orders, exhaustive, tmax, fails, tp_tasks
 
 
+def gather_contract(run):
+    """Runtime.gather_values(values) as resolvers may call it through `info.runtime`: the aggregate is the list of the values the members stand for, position by position -
+    plain members as they are, pending members by their results - whatever the order in which the pending ones complete, also when ONE pending value stands at several
+    positions (a loader memo) and when members are already done; the first failure fails the aggregate.  Thread-pool and asyncio runtimes, all member lists <= 4 over
+    {plain, pending A, pending B, done C}, every completion order."""
+    import asyncio
+    import itertools
+    from concurrent.futures import Future
+    from py_gql.execution.runtime import AsyncIORuntime, ThreadPoolRuntime
+    n = 0
+    values = {"A": 10, "B": 20, "C": 30}
+    shapes = [t for k in range(1, 5) for t in itertools.product(["p", "A", "B", "C"], repeat=k) if any(x in ("A", "B") for x in t)]
+    rt = ThreadPoolRuntime(max_workers=1)
+    try:
+        for shape in shapes:
+            pend = sorted({x for x in shape if x in ("A", "B")})
+            for order in itertools.permutations(pend):
+                for failing in [None] + pend:
+                    futs = {k: Future() for k in ("A", "B", "C")}
+                    futs["C"].set_result(values["C"])
+                    agg = rt.gather_values([futs[x] if x != "p" else 7 for x in shape])
+                    for k in order:
+                        if k == failing:
+                            futs[k].set_exception(ValueError(k))
+                        else:
+                            futs[k].set_result(values[k])
+                    n += 1
+                    w = {"runtime": "thread pool", "members": list(shape), "completion_order": list(order), "failing": failing}
+                    try:
+                        got = agg.result(timeout=2) if isinstance(agg, Future) else agg
+                        outcome = ("ok", got)
+                    except ValueError as e:
+                        outcome = ("failed", str(e))
+                    except Exception as e:
+                        outcome = ("other", repr(e))
+                    want = ("failed", failing) if failing else ("ok", [values[x] if x != "p" else 7 for x in shape])
+                    if outcome != want:
+                        run.violation("gather_values:aggregate-is-the-list-of-member-values", "gather_values over %s, completed in order %s%s, gives %r; expected %r" % (
+                            list(shape), list(order), " (%s failing)" % failing if failing else "", outcome, want), w, True)
+    finally:
+        rt._inner.shutdown(wait=False) if hasattr(rt, "_inner") else None
+
+    async def one(shape, order):
+        loop = asyncio.get_event_loop()
+        art = AsyncIORuntime(loop=loop) if "loop" in AsyncIORuntime.__init__.__code__.co_varnames else AsyncIORuntime()
+        futs = {k: loop.create_future() for k in ("A", "B", "C")}
+        futs["C"].set_result(values["C"])
+        agg = art.gather_values([futs[x] if x != "p" else 7 for x in shape])
+        for k in order:
+            futs[k].set_result(values[k])
+        return await asyncio.wait_for(art.ensure_wrapped(agg), 2)
+    for shape in shapes:
+        pend = sorted({x for x in shape if x in ("A", "B")})
+        for order in itertools.permutations(pend):
+            n += 1
+            try:
+                got = asyncio.new_event_loop().run_until_complete(one(shape, order))
+            except Exception as e:
+                got = repr(e)
+            want = [values[x] if x != "p" else 7 for x in shape]
+            if list(got) != want if isinstance(got, (list, tuple)) else True:
+                run.violation("gather_values:aggregate-is-the-list-of-member-values", "asyncio gather_values over %s gives %r; expected %r" % (list(shape), got, want),
+                              {"runtime": "asyncio", "members": list(shape), "completion_order": list(order)}, True)
+    return n
+
+
 def check(tier, seed):
     run = Run("C08", tier, seed)
     rnd = random.Random(seed)
@@ -165,6 +231,9 @@ def check(tier, seed):
     run.trusted("vf/ref_exec.py; the parking executor stands for concurrent.futures.ThreadPoolExecutor (done-callbacks run atomically)")
     run.assume("pre-emptive thread interleavings inside done-callbacks (gather_futures.on_finish counter, double set_result) are outside this family's "
                "reach: callbacks are atomic here; fair termination for unbounded operations is not decided")
+    run.cov["evaluations"] += gather_contract(run)
+    run.cov["bounded_functions"].append({"functions": ["ThreadPoolRuntime.gather_values / gather_futures", "AsyncIORuntime.gather_values"],
+                                         "bound": "member lists <= 4 over {plain, two pending (possibly repeated), one done} x completion orders x one failing member"})
     engine_p.run(run, 'C08')
     return run.finish("other", "BlockingRuntime.map_value checked against the map_value effect contract (Engine P); bounded stand-in: every configuration satisfies the same functional contract as C04 (reference executor) for every "
                                "enumerated completion order; equality across configurations is a corollary; unexpected exceptions fail the result; "
